@@ -40,6 +40,11 @@ from vp.common.bootstrap import HarnessError
 TOP = "p"  # the package that is requested
 DECOY_TOP = "q"
 NAMES = ("a", "b", "c")
+# File/directory names that are not Python identifiers (or are keywords / non-ASCII) but that CPython's finders accept
+# all the same: FileFinder matches file names textually and pkgutil.iter_modules lists every name without a dot
+# (`importlib.import_module("pkg.0001_initial")` works; Django migrations rely on it).
+ODD_NAMES = ("0a", "a-b", "class", "\u00e9")
+NAME_POOL = NAMES * 3 + ODD_NAMES
 NATIVE_EXT = tuple(importlib.machinery.EXTENSION_SUFFIXES)  # e.g. .cpython-312-x86_64-linux-gnu.so, .abi3.so, .so
 FOREIGN_EXT = (".cpython-38-x86_64-linux-gnu.so", ".cp312-win_amd64.pyd", ".pyd", ".cpython-312-darwin.so")
 PYCACHE_TAG = sys.implementation.cache_tag  # cpython-312
@@ -75,7 +80,7 @@ def layouts(max_depth: int = 3):
             d["__init__.pyi"] = "x"
         if init in PKG_STYLE:
             d["__init__.py"] = init
-        names = draw(st.lists(st.sampled_from(NAMES), unique=True, min_size=min_names, max_size=3))
+        names = draw(st.lists(st.sampled_from(NAME_POOL), unique=True, min_size=min_names, max_size=3))
         for n in names:
             forms = draw(st.lists(st.sampled_from(forms_sub), unique=True, min_size=1, max_size=3))
             for f in forms:
@@ -579,6 +584,9 @@ def features(layout: dict) -> set[str]:
                 continue
             regular = "__init__.py" in sub and sub["__init__.py"] not in PKG_STYLE
             for name, node in sub.items():
+                stem = name.split(".", 1)[0]
+                if stem in ODD_NAMES and (isinstance(node, dict) or name == f"{stem}.py"):
+                    f.add("name:" + {"0a": "digit-first", "a-b": "dash", "class": "keyword"}.get(stem, "non-ascii") + (":dir" if isinstance(node, dict) else ":module"))
                 if isinstance(node, dict):
                     if name == "__pycache__":
                         f.add("pycache")
